@@ -30,6 +30,7 @@ Inductive script :=
 | SObserve (k : Z) (rest : script)
 | SRetCopy (off size : Z) (rest : script)            (* RETURNDATACOPY into the buffer *)
 | SIf (cond : Z) (s1 s2 : script)                    (* JUMPI on a word of the input: s1 if it is non-zero *)
+| SExtCode (a off : Z) (rest : script)               (* EXTCODESIZE a; EXTCODECOPY of a, 32 bytes from [off], over non-zero memory *)
 | SCall (kd : ckind) (to v rsz : Z) (callee rest : script)
 | SCreate (v : Z) (initcode : list Z) (init rest : script).
 
@@ -76,6 +77,14 @@ Definition observation (c : fctx) (w : world) (k : Z) : list Z :=
   words [c_caller c; c_value c; c_this c; c_origin c; blen (c_code c);
          sload_of (w_storage w) (c_this c) k; sload_of (w_transient w) (c_this c) k;
          get_balance w (c_this c)].
+
+(* what a frame sees of the code of account [a]: its size, and the 32 bytes from offset [off]
+   on (zeros beyond the end of the code; an account without code reads as zeros) *)
+Definition code_window (code : list Z) (off : Z) : list Z :=
+  firstn 32 (skipn (Z.to_nat off) code ++ repeat 0 32).
+Definition ext_observation (w : world) (a off : Z) : list Z :=
+  let code := get_code w (a mod 2 ^ 160) in
+  words [blen code] ++ code_window code off.
 
 (* the [rsz]-byte return area (initially zero) after the call wrote min(rsz, |ret|) bytes *)
 Definition ret_area (rsz : Z) (ret : list Z) : list Z :=
@@ -135,6 +144,7 @@ Fixpoint sexec (s : script) (c : fctx) (w : world) (ctr : Z) (ob rd : list Z) {s
         (SHalt, ctr, [LEnd FHalt])         (* EIP-211: also for size 0 *)
       else sexec rest c w ctr (ob ++ firstn (Z.to_nat size) (skipn (Z.to_nat off) rd)) rd
   | SIf cond s1 s2 => if cond =? 0 then sexec s2 c w ctr ob rd else sexec s1 c w ctr ob rd
+  | SExtCode a off rest => sexec rest c w ctr (ob ++ ext_observation w a off) rd
   | SCall kd to0 v0 rsz callee rest =>
       let to := to0 mod ADDR_MOD in
       let v := if carries_value kd then v0 else 0 in
@@ -203,6 +213,7 @@ Fixpoint supported (s : script) : bool :=
   | SEnd _ => true
   | SSstore _ _ r | STstore _ _ r | SLog r | SObserve _ r | SRetCopy _ _ r => supported r
   | SIf _ s1 s2 => supported s1 && supported s2
+  | SExtCode a _ r => negb (reserved (a mod ADDR_MOD)) && supported r
   | SCall _ to _ _ callee r => negb (reserved (to mod ADDR_MOD)) && supported callee && supported r
   | SCreate _ _ init r => supported init && supported r
   end.
